@@ -100,7 +100,18 @@ impl AssetExpr {
 #[derive(Serialize, Deserialize, Debug, Clone, PartialEq, Eq)]
 pub struct AdHocDirective {
     pub name: String,
+    #[serde(serialize_with = "serialize_ordered")]
     pub data: HashMap<String, Expression>,
+}
+
+/// Serializes the entries by key, so that encoding the same directive always
+/// yields the same bytes whatever the map's iteration order happens to be.
+fn serialize_ordered<S: serde::Serializer>(
+    data: &HashMap<String, Expression>,
+    serializer: S,
+) -> Result<S::Ok, S::Error> {
+    let ordered: std::collections::BTreeMap<&String, &Expression> = data.iter().collect();
+    ordered.serialize(serializer)
 }
 
 #[derive(Serialize, Deserialize, Debug, Clone, PartialEq, Eq)]
